@@ -1,0 +1,12 @@
+//go:build verif
+
+package mathext
+
+import "golang.org/x/sys/cpu"
+
+func init() {
+	if cpu.X86.HasBMI2 {
+		VerifPdepHW = pdepBMI2
+		VerifPextHW = pextBMI2
+	}
+}
